@@ -147,8 +147,76 @@ def order_effects(effects):
     return out
 
 
+def _exit_states(ev, all_cases, exit_ret):
+    """`break` at an exit whose state decides what follows:  `x = it.next(); if x.is_none() { break }` followed (after the
+    loop) by `match x { None => return None, .. }` returns None at that exit -- the same as `x = it.next()?` inside the loop.
+    The fields assigned earlier in the same iteration, on the path to the break, are known at the exit; when under them
+    exactly one of the function's cases remains, its value does not depend on the loop state and nothing else happens after
+    the loop on that path, the break is written as the return of that value."""
+    tl = [e for e in ev.events if e['kind'] == 'loop' and e['depth'] == 0 and not e['loops'] and not e.get('reduced')]
+    if len(tl) != 1:
+        return
+    nid = tl[0]['node'].get('_nid')
+    inner = [e for e in ev.events if e['depth'] == 0 and e['loops'] == (nid,)]
+    seen_loop = False
+    post = []
+    for e in ev.events:
+        if e is tl[0]:
+            seen_loop = True
+        elif seen_loop and e['depth'] == 0 and not e['loops'] and e['kind'] in ('assign', 'mutcall', 'panic', 'unwrap', 'loop'):
+            post.append(e)
+    for e in inner:
+        if e['kind'] != 'break' or id(e) in exit_ret or e.get('value') is not None:
+            continue
+        pcs = set(e['pc'])
+        sigma, tainted = {}, set()
+        for x in inner:
+            if x is e:
+                break
+            if x['kind'] == 'assign' and x.get('local') is not None and len(x.get('fields') or ()) == 1 and x['fields'][0] != '[]':
+                place = ('f', ('havoc', x['local'], nid), x['fields'][0])
+                if set(x['pc']) <= pcs:
+                    sigma[place] = T.unroot(x['value'])
+                    tainted.discard(place)
+                else:
+                    tainted.add(place)
+                    sigma.pop(place, None)
+            elif x['kind'] in ('assign', 'mutcall') and not (x['kind'] == 'mutcall' and x.get('node', {}).get('recv', {}).get('k') == 'Field'):
+                return      # a whole-variable write or a call on the variable itself: the exit state is not known field by field
+        if not sigma:
+            continue
+
+        def under(c):
+            c = T.substitute(c, sigma)
+            return T.simplify_under(c, e['pc']) if T.is_bool(c) else c
+
+        def mentions(t, what):
+            return any(y in what for y in T.subterms(t))
+        left = []
+        for cpc, v in all_cases:
+            conds = [under(c) for c in cpc]
+            if any(c == T.FALSE for c in conds):
+                continue
+            left.append(([c for c in conds if c != T.TRUE], v, cpc))
+        if len(left) != 1 or left[0][0]:
+            continue
+        _, v, cpc = left[0]
+        if any(mentions(c, tainted) for c in cpc):
+            continue
+        v = T.substitute(v, sigma)
+        if any(isinstance(y, tuple) and len(y) >= 3 and y[0] in ('havoc', 'elemhavoc') and y[-1] == nid for y in T.subterms(v)):
+            continue
+        quiet = True
+        for x in post:
+            conds = [under(c) for c in x['pc']]
+            if x['kind'] == 'loop' or not any(c == T.FALSE for c in conds):
+                quiet = False
+        if quiet:
+            exit_ret[id(e)] = v
+
+
 def summarise(crate, body, args=None):
-    ev = Evaluator(crate)
+    ev = Evaluator(crate, inline_private_loops=True)
     top = ev.eval_entry(body, args)
     lines = []
     # `while !c {..}; x` leaves the loop by break and then yields x; `loop { if c { return x } .. }` returns x from inside:
@@ -182,6 +250,7 @@ def summarise(crate, body, args=None):
     # `if b {return 0}; if a {return 0}` read alike); A && B || !B is written A || !B
     lines.extend(case_lines(all_cases))
     lines[:] = sorted(set(lines))
+    _exit_states(ev, all_cases, exit_ret)
     effects = []      # (indent, text, frozenset(pc)) in evaluation order
     loops = {}
     reduced = set()
@@ -265,14 +334,25 @@ def summarise(crate, body, args=None):
                     lines.append(line)
     text = '\n'.join(lines)
 
+    # loop-carried values of a helper evaluated in place belong to the helper's body
+    owner = {}
+    for e in ev.events:
+        if e['kind'] == 'loop' and e.get('body') and e['body'] != body.path:
+            ob = crate.body(e['body'])
+            if ob is not None:
+                owner[e['node'].get('_nid')] = ob
+
     def name_of(m):
-        b = body.binders.get(int(m.group(1)))
+        lid = int(m.group(1))
+        nid = int(m.group(2)) if m.lastindex and m.lastindex >= 2 else None
+        src = owner.get(nid, body)
+        b = src.binders.get(lid)
         return (b['bind']['name'] if b else 'var') + '°'
-    text = re.sub(r'havoc\((\d+), \d+\)', name_of, text)
-    text = re.sub(r'elemhavoc\((?:[^()]|\([^()]*\))*, (\d+), \d+\)', name_of, text)
+    text = re.sub(r'havoc\((\d+), (\d+)\)', name_of, text)
+    text = re.sub(r'elemhavoc\((?:[^()]|\([^()]*\))*, (\d+), (\d+)\)', name_of, text)
     # names of locals are arbitrary: number them by first appearance (parameters are p0, p1, ..; `self` stays)
     names = []
-    for b in body.binders.values():
+    for b in list(body.binders.values()) + [x for ob in owner.values() for x in ob.binders.values()]:
         if b['kind'] in ('let', 'iflet', 'arm', 'cparam'):
             nm = b['bind']['name']
             if nm not in names and nm != 'self':
